@@ -13,7 +13,8 @@ ASSUMPTIONS = ["bounded: frame stacks of the stated sizes only; bloboverlaps and
 EXPLANATION = ("Proved for all inputs: add_pixel updates each of the 22 accumulators by the pixel's contribution (sums, maximum pixel, bounding box); merge "
                "combines two accumulator rows (sums added, maximum and bounding box combined, second row zeroed); blobproperties leaves in each of the "
                "12 sum accumulators of every label (a ghost label constant) the double sum over rows and columns of the labelled pixels' contributions; "
-               "memory safety of compute_moments / blob_moments. Bounded (not counted as proved): the real labelimage pipeline (peaksearch / mergelast / finalise through the compiled "
+               "compute_moments turns the sums of every peak (ghost row) into average intensity and the three intensity-weighted centroids, the sums "
+               "untouched; memory safety of blob_moments. Bounded (not counted as proved): the real labelimage pipeline (peaksearch / mergelast / finalise through the compiled "
                "extension) on every pair of binary 2x3 frames, every triple of 2x2 frames and seeded random stacks with increasing and decreasing omega: "
                "one written peak per 3-D component, pixel count, summed intensity, centroid (s, f, omega), maximum pixel and bounding box equal.")
 
@@ -137,6 +138,6 @@ def bounded(ctx):
 
 
 def units(ctx):
-    return [CUnit("blobs.c:add_pixel"), CUnit("blobs.c:merge"), CUnit("blobs.c:compute_moments", mode="safety"),
+    return [CUnit("blobs.c:add_pixel"), CUnit("blobs.c:merge"), CUnit("blobs.c:compute_moments"),
             CUnit("connectedpixels.c:blobproperties"), CUnit("connectedpixels.c:blob_moments", mode="safety"),
             BoundedUnit("labelimage-pipeline-vs-3d-components", bounded, "1344 (thorough 4096) frame pairs, 4096 frame triples, 40 (thorough 300) random stacks")]
